@@ -81,6 +81,7 @@ func (gowFamily) Gen(r *rand.Rand, i int, tier string) *hc.Case {
 }
 
 var gowErrs = []error{errors.New("e0"), errors.New("e1"), errors.New("e2"), errors.New("e3")}
+
 // panic values of several dynamic types, the last a genuine runtime.Error (what a nil-map write raises)
 var gowPanics = []interface{}{"p0", errors.New("p1"), pstruct{2, 2}, func() (v interface{}) {
 	defer func() { v = recover() }()
@@ -301,6 +302,9 @@ func (gowFamily) Exec(c *hc.Case) {
 	if p.Circuit == "normal" && p.K%4 == 1 {
 		staleResultProbe(c)
 	}
+	if p.Circuit == "normal" && p.K%4 == 2 {
+		reconfigProbe(c)
+	}
 	c.Tags = []string{"order:" + p.Order, "outcome:" + p.Outcome, "via:" + p.Via, "circuit:" + p.Circuit, fmt.Sprintf("lost:%v", p.Lost), "ctx_end:" + p.CtxEnd}
 	if ctxErr {
 		c.Tags = append(c.Tags, "result:ctx_error")
@@ -366,5 +370,64 @@ func staleResultProbe(c *hc.Case) {
 		}
 	case <-time.After(3 * time.Second):
 		c.Viol = append(c.Viol, hc.Violation{Clause: "C18: Go returns as soon as the run function finishes, or as soon as the caller's context or the execution timeout ends", Detail: "Go with a timed-out run function and a 30 ms fallback had not returned after 3 s", AtOp: 0})
+	}
+}
+
+// reconfigProbe: an execution timeout switched ON (SetConfigThreadSafe, complete) while a Go call without one is being
+// admitted, the caller's context being one that can never end.  Whether this call is bounded is the library's choice of
+// reading point -- the run function looks: if its context carries a deadline, the execution timeout is armed for this
+// call, and Go returns when it ends although the function never does.
+func reconfigProbe(c *hc.Case) {
+	var cir *circuit.Circuit
+	var once sync.Once
+	var cfg circuit.Config
+	cfg.Execution.Timeout = -1
+	cfg.General.TimeKeeper.Now = func() time.Time {
+		once.Do(func() {
+			d := make(chan struct{})
+			go func() {
+				defer close(d)
+				n := cir.Config()
+				n.Execution.Timeout = 40 * time.Millisecond
+				cir.SetConfigThreadSafe(n)
+			}()
+			<-d
+		})
+		return time.Now()
+	}
+	cir = circuit.NewCircuitFromConfig("gow-reconf", cfg)
+	release := make(chan struct{})
+	armed := make(chan bool, 1)
+	done := make(chan error, 1)
+	go func() {
+		done <- cir.Go(context.Background(), func(ctx context.Context) error {
+			_, has := ctx.Deadline()
+			armed <- has
+			<-release
+			return nil
+		}, nil)
+	}()
+	var has bool
+	select {
+	case has = <-armed:
+	case <-time.After(5 * time.Second):
+		close(release)
+		return // never ran (rejected): nothing to observe
+	}
+	if !has {
+		close(release)
+		<-done
+		return
+	}
+	select {
+	case err := <-done:
+		if err != context.DeadlineExceeded {
+			c.Viol = append(c.Viol, hc.Violation{Clause: "C18: when the execution timeout ends first the run step ends with that context's error", Detail: fmt.Sprintf("timeout switched on during admission; got %v", err), AtOp: 0})
+		}
+		close(release)
+	case <-time.After(3 * time.Second):
+		c.Viol = append(c.Viol, hc.Violation{Clause: "C18: Go returns as soon as the caller's context or the execution timeout ends, even if the run function never returns", Detail: "a 40 ms execution timeout, switched on while the call was being admitted, was armed for the call (its context has the deadline), and Go was still blocked 3 s later", AtOp: 0})
+		close(release)
+		<-done
 	}
 }
